@@ -25,7 +25,7 @@ CURVES = ['UnitSquare', 'PiSquare', 'LShape', 'Circle']
 def plan(tier, seed):
     specs = []
     for c in CURVES:
-        for k in range(3 if tier == 'quick' else 12):
+        for k in range(3 if tier == 'quick' else 40):
             specs.append({'name': 'mesh-%s-%d' % (c, k), 'curve': c, 'rseed': seed * 733 + k, 'n_ops': 20 + 8 * k if tier == 'quick' else 30 + 5 * k,
                           'n_pairs': 140 if tier == 'quick' else 900})
     return specs
